@@ -183,6 +183,42 @@ def judge_computed_arrays(expand):
     return txt, None, None
 
 
+def judge_matrix_expression_attributes():
+    """a 2-D array whose attributes are matrix-valued EXPRESSIONS of parameters, expanded to scalars: element [i,j] reports the
+    [i,j] entry of the expression, in the Variable object and in the metadata function"""
+    import casadi as ca
+    import pymoca.parser
+    from pymoca.backends.casadi.generator import generate
+    from pymoca.backends.casadi._options import _merge_default_options
+    txt = ("model Q parameter Real p = 2; parameter Real A[2,3] = {{1,2,3},{4,5,6}}; parameter Real B[2,3] = {{7,8,9},{10,11,12}}; "
+           "Real z[2,3](max = p * A, min = -A, start = B); equation z = fill(1.0, 2, 3); end Q;")
+    o = _merge_default_options({"expand_vectors": True})
+    m = generate(pymoca.parser.parse(txt), "Q", o)
+    m.simplify(o)
+    psyms = [q.symbol for q in m.parameters]
+    pvals = []
+    for q in m.parameters:
+        nm = q.symbol.name()
+        if nm == "p":
+            pvals.append(2.0)
+        else:
+            i, j = (int(t) - 1 for t in nm[nm.index("[") + 1:-1].split(","))
+            pvals.append(float({"A": 1, "B": 7}[nm[0]] + 3 * i + j))
+    A = np.array([[1.0, 2, 3], [4, 5, 6]])
+    B = A + 6
+    want = {"max": 2 * A, "min": -A, "start": B}
+    blk = np.array(m.variable_metadata_function(ca.veccat(*pvals))[1])
+    for r, v in enumerate(m.alg_states):
+        nm = v.symbol.name()
+        idx = tuple(int(t) - 1 for t in nm[nm.index("[") + 1:-1].split(","))
+        for a, W in want.items():
+            val = getattr(v, a)
+            got = float(ca.Function("f", psyms, [ca.MX(val)])(*pvals)) if not isinstance(val, (int, float)) else float(val)
+            if got != W[idx] or blk[r, ATTR_COL[a]] != W[idx]:
+                return txt, "expand_vectors: %s.%s evaluates to %r, metadata row %r" % (nm, a, got, blk[r, ATTR_COL[a]]), "%r" % W[idx]
+    return txt, None, None
+
+
 def main():
     payload = json.load(sys.stdin)
     tier, seed = payload.get("tier", "quick"), int(payload.get("seed", 0) or 0)
@@ -220,6 +256,13 @@ def main():
             txt, obs, exp = "computed-array model", "%s: %s" % (type(e).__name__, str(e)[:160]), "a model"
         if obs:
             failures.append({"class": "metadata", "input": txt, "observed": obs, "expected": exp})
+    n += 1
+    try:
+        txt, obs, exp = judge_matrix_expression_attributes()
+    except BaseException as e:  # noqa
+        txt, obs, exp = "matrix-expression model", "%s: %s" % (type(e).__name__, str(e)[:160]), "a model"
+    if obs:
+        failures.append({"class": "metadata", "input": txt, "observed": obs, "expected": exp})
     for a in cases:
         n += 1
         try:
